@@ -413,6 +413,60 @@ Definition extract_serial (q : Z * option Z) : res (option Z) :=
        | None => Internal 52   (* KeyError: no SOA rrset in the authority section *)
        end.
 
+(* ---- repeated refresh of a zone from a server (end to end): make_query on the zone as it is now,
+        extract_serial_from_query, the server's answer for THAT serial, _inbound_xfr ---- *)
+Definition zone_serial (z : zone) : option Z :=
+  match look z (origin, tSOA, 0) with
+  | Some (_, d :: _) => Some (d mod two32)
+  | _ => None
+  end.
+
+Definition oz_eqb (a b : option Z) : bool :=
+  match a, b with
+  | Some x, Some y => x =? y
+  | None, None => true
+  | _, _ => false
+  end.
+
+(* the server's answers, keyed by the serial in the query; the row keyed None is the full transfer
+   sent for an AXFR query or for a serial the server has no history for *)
+Fixpoint find_row (table : list (option Z * list wmsg)) (k : option Z) : option (list wmsg) :=
+  match table with
+  | [] => None
+  | (k', ms) :: rest => if oz_eqb k' k then Some ms else find_row rest k
+  end.
+
+Definition pick (table : list (option Z * list wmsg)) (ser : option Z) : list wmsg :=
+  match find_row table ser with
+  | Some ms => ms
+  | None => match find_row table None with Some ms => ms | None => [] end
+  end.
+
+Definition result_zone (r : result) : zone := match r with Done z => z | Error _ z => z end.
+Definition result_code (r : result) : Z := match r with Done _ => 0 | Error e _ => e end.
+
+(* one refresh: (query rdtype, serial returned by make_query, serial read back from the query,
+   outcome code, zone afterwards) *)
+Definition refresh1 (z : zone) (table : list (option Z * list wmsg))
+  : res (Z * option Z * option Z * Z * zone) :=
+  do q <- make_query (zone_serial z) (Some 0);
+  let '(qt, s) := q in
+  do s2 <- extract_serial (qt, s);
+  let '(r, _) := inbound_xfr z qt s2 false (pick table s2) in
+  Ok (qt, s, s2, result_code r, result_zone r).
+
+Fixpoint refreshes (z : zone) (tables : list (list (option Z * list wmsg)))
+  : list (res (Z * option Z * option Z * Z * zone)) :=
+  match tables with
+  | [] => []
+  | t :: rest =>
+      match refresh1 z t with
+      | Ok (qt, s, s2, c, z') => Ok (qt, s, s2, c, z') :: refreshes z' rest
+      | Lib e => [Lib e]
+      | Internal e => [Internal e]
+      end
+  end.
+
 (* ---- obs interface ---- *)
 Fixpoint zs_of_obs (l : list obs) : option (list Z) :=
   match l with
@@ -544,6 +598,38 @@ Definition obs_of_result (rn : result * nat) : obs :=
   | (Error e z, n) => L [I e; I (Z.of_nat n); obs_of_zone z]
   end.
 
+Definition row_of_obs (o : obs) : option (option Z * list wmsg) :=
+  match o with
+  | L [k; L ws] =>
+      match oz_of_obs k, wmsgs_of_obs ws with
+      | Some k, Some ws => Some (k, ws)
+      | _, _ => None
+      end
+  | _ => None
+  end.
+
+Fixpoint table_of_obs (l : list obs) : option (list (option Z * list wmsg)) :=
+  match l with
+  | [] => Some []
+  | o :: r => match row_of_obs o, table_of_obs r with
+              | Some e, Some t => Some (e :: t)
+              | _, _ => None
+              end
+  end.
+
+(* a refresh in the case: [target zone (for the oracle only); table] *)
+Fixpoint tables_of_obs (l : list obs) : option (list (list (option Z * list wmsg))) :=
+  match l with
+  | [] => Some []
+  | L [_; L t] :: r => match table_of_obs t, tables_of_obs r with
+                       | Some e, Some ts => Some (e :: ts)
+                       | _, _ => None
+                       end
+  | _ => None
+  end.
+
+Definition obs_of_oz (o : option Z) : obs := match o with Some x => I x | None => N end.
+
 Definition eBadCase : Z := 999.
 
 Definition run (c : obs) : obs :=
@@ -587,6 +673,17 @@ Definition run (c : obs) : obs :=
       | Some rs => L (map (fun s => L [I (s_name s); I (s_class s); I (s_type s); I (s_covers s);
                                        I (s_ttl s); L (map I (s_data s))]) (group (f =? 1) rs))
       | None => E eBadCase
+      end
+  (* 6: repeated refresh.  [6; zone kind; relativize; max_versions; pinned reader; zone; refreshes] *)
+  | L [I 6; I _; I _; I _; I _; L z; L rs] =>
+      match zone_of_obs z, tables_of_obs rs with
+      | Some z, Some ts =>
+          L (map (fun r => match r with
+                           | Ok (qt, s, s2, c, z') => L [I qt; obs_of_oz s; obs_of_oz s2; I c; obs_of_zone z']
+                           | Lib e => E e
+                           | Internal e => E e
+                           end) (refreshes z ts))
+      | _, _ => E eBadCase
       end
   | _ => E eBadCase
   end.
